@@ -281,6 +281,194 @@ def judge_runs(ctx, rejected):
         ctx.violation(why, small)
 
 
+# ---------------------------------------------------------------------------------------------------------------------
+# The decoder process loop (Decode.run) - the C17 anchor "decode loop keeps its batch on exception".  Not part of the
+# property's own statement: every deviation found here is reported as MODEL-DRIFT, never as a violation.
+LOOP_CONFIGS = [(), (1,), (2,), (3,), (2, 4)]
+
+
+def _loop_cfg(nb, poison, maxexc, temporal):
+    inv = ["TypeOK", "ExactlyOnceInOrder", "NoLoss", "PublishAfterProcessing", "PublishComplete"]
+    props = ["PublishMonotone", "StuckAfterPoison", "PoisonSticks"] + (["AllProcessed", "AllPublished"] if temporal and not poison else [])
+    return ("SPECIFICATION %s\nCONSTANTS\n  NB = %d\n  Poison = {%s}\n  MaxExc = %d\n" % (
+        "FairSpec" if temporal else "Spec", nb, ", ".join(map(str, poison)), maxexc)
+        + "".join("INVARIANT %s\n" % i for i in inv) + ("".join("PROPERTY %s\n" % q for q in props) if temporal else "")
+        + "CHECK_DEADLOCK FALSE\n")
+
+
+def _parse_dot(path):
+    """TLC `-dump dot,actionlabels`: returns (initial node, {node: [(action, node)]})"""
+    import re
+    edges, init = {}, None
+    re_e = re.compile(r'^(-?\d+) -> (-?\d+) \[label="(\w+)"')
+    re_n = re.compile(r'^(-?\d+) \[label=.*style = filled\]')
+    for line in open(path):
+        m = re_e.match(line)
+        if m:
+            edges.setdefault(m.group(1), []).append((m.group(3), m.group(2)))
+            continue
+        m = re_n.match(line)
+        if m and init is None:
+            init = m.group(1)
+    return init, edges
+
+
+def _edge_cover(init, edges, rng, extra_steps):
+    """one schedule per transition of the state graph: shortest path to its source, the transition, a short random continuation"""
+    from collections import deque
+    par = {init: None}
+    dq = deque([init])
+    while dq:
+        u = dq.popleft()
+        for a, w in edges.get(u, []):
+            if w not in par:
+                par[w] = (u, a)
+                dq.append(w)
+    scheds = []
+    for u in sorted(edges):
+        if u not in par:
+            continue
+        pre = []
+        x = u
+        while par[x] is not None:
+            x, a = par[x][0], par[x][1]
+            pre.append(a)
+        pre.reverse()
+        for a, w in edges[u]:
+            sched = pre + [a]
+            x = w
+            for _ in range(extra_steps):
+                nxt = edges.get(x)
+                if not nxt:
+                    break
+                b, x = nxt[rng.randrange(len(nxt))]
+                sched.append(b)
+            scheds.append(sched)
+    return scheds
+
+
+def decode_loop(ctx):
+    import glob
+    import shutil
+    from .. import tlaval
+    nb = ctx.pick(4, 6)
+    # A: every interleaving of the source's sends with the loop's steps; safety + liveness under weak fairness
+    ctx.model_check("DecodeLoopMC", cfg_text=_loop_cfg(ctx.pick(5, 7), (), 0, True), what="decoder loop, no raising batch", timeout=3000)
+    for poison in LOOP_CONFIGS[1:]:
+        ctx.model_check("DecodeLoopMC", cfg_text=_loop_cfg(nb, poison, 3, True), what="decoder loop, raising batch %r" % (poison,), timeout=3000)
+    # the hazard is real in the model: with a raising batch, earlier batches are processed again (expected counterexample)
+    r = tlc.run("DecodeLoopMC", cfg_text=_loop_cfg(4, (2,), 3, False).replace("INVARIANT ExactlyOnceInOrder", "INVARIANT OnceEach"), workers=1, timeout=600)
+    if r.invariant_violated != "OnceEach":
+        raise tlc.MachineryError("DecodeLoop: the re-processing hazard is not reachable in the model (vacuous poison configuration)\n" + r.out[-1500:])
+    ctx.extra["decode_loop_hazard_reprocessing_reachable_in_model"] = True
+    # B: one schedule per transition of the complete state graph + behaviours simulated by TLC, stepped through the real Decode.run
+    V = []
+    nsched = {"edge_cover": 0, "simulated": 0}
+    hist, asked = {}, {}
+    for ci, poison in enumerate(LOOP_CONFIGS):
+        d = os.path.join(ctx.tmp, "loop%d" % ci)
+        os.makedirs(d, exist_ok=True)
+        dot = os.path.join(d, "g.dot")
+        r = tlc.run("DecodeLoopMC", cfg_text=_loop_cfg(nb, poison, 2, False), workers=1, timeout=1200, extra=["-dump", "dot,actionlabels", dot])
+        tlc.require_ok(r, "DecodeLoop state graph %r" % (poison,))
+        ctx.tlc_runs.append({"module": "DecodeLoopMC", "role": "B", "mode": "state graph", "distinct": r.distinct, "wall_s": round(r.wall, 2)})
+        init, edges = _parse_dot(dot)
+        nedges = sum(len(x) for x in edges.values())
+        if init is None or nedges < 50:
+            raise tlc.MachineryError("DecodeLoop state graph not parsed (%s edges)" % nedges)
+        for sched in _edge_cover(init, edges, ctx.rng, ctx.pick(4, 10)):
+            V.append({"fn": "decodeloop.run", "sched": sched, "poison": list(poison), "cfg": ci, "origin": "edge"})
+            nsched["edge_cover"] += 1
+        r = tlc.run("DecodeLoopMC", cfg_text=_loop_cfg(nb, poison, 4, False), workers=1, timeout=1200,
+                    simulate="file=%s/tr,num=%d" % (d, ctx.pick(40, 400)), depth=ctx.pick(40, 80), seed=ctx.seed * 11 + ci)
+        tlc.require_ok(r, "DecodeLoop simulation %r" % (poison,))
+        ctx.tlc_runs.append({"module": "DecodeLoopMC", "role": "B", "mode": "simulate", "generated": r.generated, "wall_s": round(r.wall, 2)})
+        for fn in sorted(glob.glob(d + "/tr_*")):
+            beh = tlaval.parse_sim(fn)
+            sched = [lab.split("(")[0] for lab, _ in beh[1:]]
+            exp = [{k: st[k] for k in ("sent", "pipe", "calls", "pubs", "excs")} for _, st in beh[1:]]
+            if sched:
+                V.append({"fn": "decodeloop.run", "sched": sched, "poison": list(poison), "cfg": ci, "origin": "sim", "exp": exp})
+                nsched["simulated"] += 1
+        shutil.rmtree(d, ignore_errors=True)
+    ev = ctx.replay(V)
+    bad_b = set()
+    lines = {ci: [] for ci in range(len(LOOP_CONFIGS))}
+    nact = 0
+    for e in ev:
+        got = e["res"]["v"]
+        for x in got:
+            hist[x["a"]] = hist.get(x["a"], 0) + 1
+        for a in e["sched"]:
+            asked[a] = asked.get(a, 0) + 1
+        if e["res"].get("used") != len(e["sched"]) or any(x["a"] == "DIVERGED" or x.get("ok") == 0 for x in got):
+            bad_b.add(e["id"])
+        if "exp" in e:                   # abstract state after every action against the behaviour TLC wrote
+            for x, want in zip(got, e["exp"]):
+                if any(x.get(k) != want[k] for k in want):
+                    bad_b.add(e["id"])
+                    break
+            if len(got) != len(e["exp"]):
+                bad_b.add(e["id"])
+        L = lines[e["cfg"]]
+        L.append({"ev": "start", "run": e["id"], "id": e["id"] * 1000})
+        for k, x in enumerate(got):
+            L.append({"ev": "act", "run": e["id"], "id": e["id"] * 1000 + k + 1, "a": x["a"], "sent": x["sent"], "pipe": x["pipe"],
+                      "calls": x["calls"], "pubs": x["pubs"], "excs": x["excs"]})
+            nact += 1
+    missing = [a for a in ("Send", "Poll", "Recv", "ProcOk", "ProcRaise", "ProcDone", "Publish") if not asked.get(a)]
+    if missing:
+        raise tlc.MachineryError("decoder loop: actions never scheduled: %s" % missing)
+    # C: TLC validates every recorded step against the DecodeLoop actions (one run per Poison configuration)
+    bad_c = {}
+    base = open(os.path.join(tlc.SPEC_DIR, "Trace_DecodeLoop.cfg")).read()
+
+    def one(ci):
+        L = lines[ci]
+        if not L:
+            return None
+        fn = os.path.join(ctx.tmp, "loop_%d.ndjson" % ci)
+        with open(fn, "w") as f:
+            for x in L:
+                f.write(json.dumps(x, separators=(",", ":")) + "\n")
+        cfg = base.replace("NB = 6", "NB = %d" % nb).replace("Poison = {}", "Poison = {%s}" % ", ".join(map(str, LOOP_CONFIGS[ci])))
+        r = tlc.run("Trace_DecodeLoop", cfg_text=cfg, workers=1, env={"TRACE_FILE": fn}, timeout=3000)
+        os.unlink(fn)
+        return r, len(L)
+
+    with cf.ThreadPoolExecutor(max_workers=len(LOOP_CONFIGS)) as ex:
+        for res in ex.map(one, range(len(LOOP_CONFIGS))):
+            if res is None:
+                continue
+            r, n = res
+            if not r.ok:
+                raise tlc.MachineryError("Trace_DecodeLoop failed\n%s" % (r.error_text or r.out[-3000:]))
+            done = [x for x in r.prints if x[0] == "DONE"]
+            if not done or done[-1][1] != n or done[-1][2] - 1 != n:
+                raise tlc.MachineryError("decoder-loop trace not fully consumed %r vs %d" % (done, n))
+            rej = [x for x in r.prints if x[0] == "REJECT"]
+            if len(rej) != done[-1][3]:
+                raise tlc.MachineryError("REJECT count mismatch (decoder loop)")
+            for x in rej:
+                bad_c.setdefault(x[1] // 1000, x[2])
+            ctx.states += r.distinct
+            ctx.transitions += r.generated
+            ctx.tlc_runs.append({"module": "Trace_DecodeLoop", "role": "C", "events": n, "rejected": len(rej), "wall_s": round(r.wall, 2)})
+    # the two verdicts (state comparison in the harness, trace validation by TLC) must name the same runs
+    only_b = bad_b - set(bad_c)
+    if only_b:
+        for i in sorted(only_b):
+            bad_c[i] = "loop_schedule_not_followed"
+    ctx.validated += nact
+    ctx.drift_kinds = getattr(ctx, "drift_kinds", {})
+    for i, why in bad_c.items():
+        ctx.drift += 1
+        k = "drift:decode_" + why
+        ctx.drift_kinds[k] = ctx.drift_kinds.get(k, 0) + 1
+    ctx.extra["decode_loop"] = {"schedules": nsched, "steps_validated": nact, "action_histogram": hist, "runs_deviating": len(bad_c),
+                                "poison_configurations": [list(p) for p in LOOP_CONFIGS], "batches": nb}
+
+
 def run(ctx):
     ctx.rule = ("model: all interleavings of {tick 0.5/9.5/10.5/61.5/181 s, position squitter (either parity), other squitter, "
                 "Comm-B reply (known / unknown address), take-off/landing, process} for 2 aircraft from 6 start places to depth 6/7; "
@@ -309,6 +497,7 @@ def run(ctx):
     e0 = ev[0]
     ctx.samples.append({"rx": e0["rx"], "lower": e0["lower"], "first_call": e0["script"][0], "table_after": e0["res"]["v"][0] if e0["res"].get("v") else None})
     judge_runs(ctx, validate_runs(ctx, ev))
+    decode_loop(ctx)
 
 
 def replay(ctx, path):
